@@ -558,6 +558,21 @@ class Connection(ExportImport):
         self._added_during_commit = None
 
     def _store_objects(self, writer, transaction):
+        try:
+            self._store_objects_found_by(writer, transaction)
+        except BaseException:
+            # New objects met while serializing a referrer get an oid
+            # and this connection as jar at once, but only become known
+            # to _creating and the cache when they are stored
+            # themselves.  Disown those still waiting: otherwise they
+            # keep the oid, and a later commit writes references to
+            # them without ever storing them.
+            for obj in writer:
+                del obj._p_jar
+                del obj._p_oid
+            raise
+
+    def _store_objects_found_by(self, writer, transaction):
         for obj in writer:
             oid = obj._p_oid
             serial = getattr(obj, "_p_serial", z64)
